@@ -15,6 +15,7 @@ CONSTANTS
   AllowFail = FALSE
   AllowNoop = TRUE
   BootAll = FALSE
+  MaxRank = 3
   AllRanks = TRUE
   AllowBad = FALSE
   PubWeight = 1
